@@ -4684,9 +4684,37 @@ void Tokenizer::setVarIdClassFunction(const std::string &classname,
 {
     const auto pos = classname.rfind(' '); // TODO handle multiple scopes
     const std::string lastScope = classname.substr(pos == std::string::npos ? 0 : pos + 1);
+
+    // start of this function's definition: what is declared before it is not a parameter or local of the function
+    const Token *funcDefStart = startToken;
+    if (funcDefStart && funcDefStart->str() == "{")
+        funcDefStart = funcDefStart->previous();
+    while (funcDefStart && !Token::Match(funcDefStart, "[;{}]"))
+        funcDefStart = (funcDefStart->str() == ")" && funcDefStart->link()) ? funcDefStart->link()->previous() : funcDefStart->previous();
+    std::map<nonneg int, bool> declaredBeforeFunction;
+
     for (Token *tok2 = startToken; tok2 && tok2 != endToken; tok2 = tok2->next()) {
-        if (tok2->varId() != 0 || !tok2->isName())
+        if (!tok2->isName())
             continue;
+        if (tok2->varId() != 0) {
+            // pass 1 knows nothing about the class of an out-of-class member function: it has bound the name to a
+            // variable of an enclosing namespace scope if there is one. A member of the class (or of a base) hides that.
+            const auto member = varlist.find(tok2->str());
+            if (member == varlist.end() || member->second == tok2->varId())
+                continue;
+            const auto known = declaredBeforeFunction.find(tok2->varId());
+            bool before;
+            if (known != declaredBeforeFunction.end())
+                before = known->second;
+            else {
+                before = false;
+                for (const Token *t = funcDefStart; t && !before; t = t->previous())
+                    before = (t->varId() == tok2->varId());
+                declaredBeforeFunction[tok2->varId()] = before;
+            }
+            if (!before) // a parameter or a local variable of this function
+                continue;
+        }
         if (Token::Match(tok2->tokAt(-2), ("!!" + lastScope + " ::").c_str()))
             continue;
         if (Token::Match(tok2->tokAt(-4), "%name% :: %name% ::")) // Currently unsupported
@@ -4698,8 +4726,10 @@ void Tokenizer::setVarIdClassFunction(const std::string &classname,
 
         const auto it = varlist.find(tok2->str());
         if (it != varlist.end()) {
+            const bool rebound = tok2->varId() != 0;
             tok2->varId(it->second);
-            setVarIdStructMembers(tok2, structMembers, varId_);
+            if (!rebound)
+                setVarIdStructMembers(tok2, structMembers, varId_);
         }
     }
 }
